@@ -25,10 +25,16 @@
 #endif
 #define VERIF_CTLS ( 1 << EXC_CTL )
 #elif defined( SPACE_ACT )
+#ifndef ACT_LAZY
+#define ACT_LAZY 0
+#endif
 #define VERIF_K 3
 #define VERIF_GROUPS ( T::G_CORE | T::G_ACT | T::G_HOLE )
 #ifndef ACT_CTL
 #define ACT_CTL 0
+#endif
+#if ACT_LAZY
+#define VERIF_TRACK p::tracking_mode::lazy
 #endif
 #if ACT_CTL == 0
 #define VERIF_FAMS ( 2 | 4 | 8 | 16 | 32 | 64 | 128 )
@@ -467,8 +473,8 @@ struct Space
 #endif
          Phase p;
          p.name = "positions_closed_n3";
-         p.root = { "SEQ", "SOR", "STAR", "OPT", "AT", "NOT_AT", "UNTIL1", "UNTIL2", "PLUS", "REMATCH", "REMATCH3", "MINUS" };
-         p.inner = { "ANY", "ONE_LF", "ONE_CR", "NOT_ONE_A", "NOT_ONE_LF", "SEVEN", "STRING_CRLF", "EOL", "EOLF", "BYTES2", "EVERYTHING", "UTF8_ANY", "PRED_NOT", "PRED_AND", "BOF", POS_BOL "EOF_", "SEQ", "SOR", "STAR", "OPT", "AT", "NOT_AT", "UNTIL1", "UNTIL2", "REMATCH" };
+         p.root = { "SEQ", "SOR", "STAR", "OPT", "AT", "NOT_AT", "UNTIL1", "UNTIL2", "PLUS", "REMATCH", "REMATCH3", "MINUS", "MUST", "IF_MUST" };
+         p.inner = { "ANY", "ONE_LF", "ONE_CR", "NOT_ONE_A", "NOT_ONE_LF", "SEVEN", "STRING_CRLF", "EOL", "EOLF", "BYTES2", "EVERYTHING", "UTF8_ANY", "PRED_NOT", "PRED_AND", "BOF", POS_BOL "EOF_", "SEQ", "SOR", "STAR", "OPT", "AT", "NOT_AT", "UNTIL1", "UNTIL2", "REMATCH", "MUST" };
          p.N = 3;
          p.L = thorough ? 4 : 3;
          p.sigma = std::string( "a\n\r\xC3\xA9" );
